@@ -109,6 +109,26 @@ def impl_fit(case, a=1.0, c=1.0):
     return pra.array.copy(), norm
 
 
+def impl_refit(case):
+    """the case's fit with a reference block object that already went through another fit (other model and kernel, a fresh copy of
+    the same source): comparing models or kernels on one block pair.  `fit` zeroes the not jointly valid pixels of the blocks it
+    is given in place and relies on their masks, so the second result must still be the definition's."""
+    from homonim.kernel_model import KernelModel
+    from homonim.raster_array import RasterArray
+    from rasterio.transform import Affine
+    import rasters
+    src = np.array(case['src'], dtype='float32')
+    ref = np.array(case['ref'], dtype='float32')
+    src[~np.array(case['sm'], dtype=bool)] = np.nan
+    ref[~np.array(case['rm'], dtype=bool)] = np.nan
+    tr = Affine(2, 0, 1000, 0, -2, 5000)
+    rra = RasterArray(ref.copy(), rasters.CRS3857, tr, nodata=float('nan'))
+    other = 'gain' if case['model'] != 'gain' else 'gain-offset'
+    KernelModel(other, (3, 3), find_r2=True).fit(RasterArray(src.copy(), rasters.CRS3857, tr, nodata=float('nan')), rra)
+    km = KernelModel(case['model'], (case['kh'], case['kw']), find_r2=case['find_r2'], r2_inpaint_thresh=case['thresh'])
+    return km.fit(RasterArray(src.copy(), rasters.CRS3857, tr, nodata=float('nan')), rra).array.copy()
+
+
 def frac(x):
     return Fraction(x).limit_denominator(10**12) if False else Fraction(x)
 
@@ -196,6 +216,18 @@ def run(run: common.Run):
             run.fail(case, f'KernelModel.fit raised {type(ex).__name__}: {ex}', signature=dict(kind='fit-raises'))
             continue
         run.evaluations += 1
+        if i % 4 == 1:
+            try:
+                again = impl_refit(case)
+            except Exception as ex:
+                run.fail(case, f'KernelModel.fit on a re-used reference block raised {type(ex).__name__}: {ex}', signature=dict(kind='refit-raises'))
+                continue
+            run.hist['re-used reference block (second fit)'] += 1
+            if not np.array_equal(again, params, equal_nan=True):
+                nbad = int((~((again == params) | (np.isnan(again) & np.isnan(params)))).any(axis=0).sum())
+                run.fail(case, f'a second fit against the same reference block object gives other parameters at {nbad} pixels than the fit '
+                         'with fresh blocks (which is compared with the definition)', signature=dict(kind='refit-differs'))
+                continue
         if norm is not None:
             # the block normalisation by its definition: std ratio and first-percentile offset over the JOINTLY valid pixels
             jmask = np.array(case['sm'], dtype=bool) & np.array(case['rm'], dtype=bool)
